@@ -361,7 +361,7 @@ def regenerate_tables(ctx):
     import extract_recv
     out = os.path.join(lean.LEAN, "AQ", "Gen", "RecvTables.lean")
     try:
-        text = extract_recv.generate(tree.REPO)
+        text = extract_recv.generate(tree.REPO, pythonpath=tree.activate())
     except Exception as e:  # noqa — the source no longer has the shape the translator understands
         ctx.broken.append({"kind": "broken-translation", "tool": "tools/extract_recv.py", "error": repr(e)})
         return
@@ -464,7 +464,8 @@ def main(tier):
     ctx.notes["outcome_classes"] = orc.outcomes
     ctx.cov["trusted_base"] = [
         "Lean 4.33.0 kernel (+ leanchecker in thorough tier); axioms ⊆ {propext, Classical.choice, Quot.sound}",
-        "tools/extract_recv.py (ast walk) for the handler table / except clauses / END_STATES; the rest of the "
+        "tools/extract_recv.py (evaluation of the imported tree for the handler table / frame-type sets / END_STATES / "
+        "exception hierarchy; normalised ast (tools/ast_normalize.py) for the except clauses and guards); the rest of the "
         "model is hand-written and tied by the outcome-class correspondence",
         "harness/sim.py + harness/inject.py (real QuicConnection pairs, key-holding peer), CPython semantics",
     ]
